@@ -805,6 +805,63 @@ func (s *sroa) run() int {
 			return []ast.Stmt{parallel(c, fieldsOf(good(b.from).cell), token.DEFINE), keep(c)}
 		}
 		var out []ast.Stmt
+		if !c.hoist && b.lit != nil {
+			// every value already has its field's type: one definition, in the order written
+			vals, _ := litVals(c.st, b.lit)
+			typed := true
+			later := map[int]bool{} // constants: no evaluation to order, assigned after the definition
+			for i, v := range vals {
+				if v == nil {
+					continue
+				}
+				tv, ok := info.Types[v]
+				if !ok || tv.Type == nil {
+					typed = false
+					continue
+				}
+				if tv.Value != nil {
+					later[i] = true
+					continue
+				}
+				if bt, isBasic := tv.Type.(*types.Basic); isBasic && bt.Info()&types.IsUntyped != 0 {
+					typed = false
+				}
+				if !types.Identical(tv.Type, c.st.Field(i).Type()) {
+					typed = false
+				}
+			}
+			if typed {
+				all := litAssign(c, b.lit, false)
+				def := &ast.AssignStmt{Tok: token.DEFINE}
+				rest := &ast.AssignStmt{Tok: token.ASSIGN}
+				seen := map[string]bool{}
+				for k, l := range all.Lhs {
+					fi := -1
+					for i := 0; i < c.st.NumFields(); i++ {
+						if name(c, i).Name == l.(*ast.Ident).Name {
+							fi = i
+						}
+					}
+					if later[fi] {
+						rest.Lhs, rest.Rhs = append(rest.Lhs, l), append(rest.Rhs, all.Rhs[k])
+						continue
+					}
+					seen[l.(*ast.Ident).Name] = true
+					def.Lhs, def.Rhs = append(def.Lhs, l), append(def.Rhs, all.Rhs[k])
+				}
+				for i := 0; i < c.st.NumFields(); i++ {
+					if !seen[name(c, i).Name] {
+						def.Lhs = append(def.Lhs, name(c, i))
+						def.Rhs = append(def.Rhs, zero(c.typ, c.st, i))
+					}
+				}
+				out := []ast.Stmt{def, keep(c)}
+				if len(rest.Lhs) > 0 {
+					out = append(out, rest)
+				}
+				return out
+			}
+		}
 		if c.hoist {
 			out = append(out, parallel(c, zeros(c), token.ASSIGN)) // a fresh object every time the site runs
 		} else {
